@@ -226,7 +226,7 @@ func (st *State) run() {
 				}
 			}
 			sp.steps++
-			if sp.steps > st.inst.MergeStepLimit {
+			if sp.steps > st.inst.MergeStepLimit || (sp.lazy > 0 && sp.steps > sp.lazy) {
 				panic(specAbort{"arm too long"})
 			}
 		} else {
@@ -536,6 +536,25 @@ func (st *State) execIf(fr *Frame, in *ssa.If) {
 		st.jump(fr, fr.block.Succs[k])
 		return
 	}
+	// Lazy merging: the side the current model takes is feasible for free; try to merge the
+	// diamond without asking the solver about the other side (an infeasible arm only adds an
+	// unreachable ite alternative and vacuous obligations). Only if that fails is the other side
+	// checked, and then forked or followed alone.
+	if v, ok := st.evalBool(c); ok && !st.inst.NoMerge && !st.inst.NoLazyMerge {
+		var mT, mF *term.Model
+		if v {
+			mT = st.model
+		} else {
+			mF = st.model
+		}
+		st.lazyLimit = st.inst.LazyArmLimit
+		merged := st.tryMerge(fr, c, mT, mF)
+		st.lazyLimit = 0
+		if merged {
+			st.res.LazyMerges++
+			return
+		}
+	}
 	// feasibility of both sides
 	okT, mT := st.feasible(c)
 	okF, mF := st.feasible(notc)
@@ -672,7 +691,10 @@ func (st *State) runArm(fr *Frame, succ *ssa.BasicBlock, join *ssa.BasicBlock, g
 			ok = false
 		}
 	}()
-	st.spec = &specCtx{frame: fr, join: join, g: g, depth: depth, steps: steps}
+	st.spec = &specCtx{frame: fr, join: join, g: g, depth: depth, steps: steps, lazy: st.lazyLimit}
+	if savedSpec != nil && savedSpec.lazy > 0 {
+		st.spec.lazy = savedSpec.lazy
+	}
 	// keep buffered obligations attached to their own pc: pushPC flushes; avoid flushing during speculation
 	n := 1
 	if st.pc != nil {
